@@ -102,6 +102,7 @@ type engine struct {
 	nworkers int
 	deadline time.Time
 	capped   int32
+	aborted  int32 // a hang was confirmed: remaining parts are skipped (the run already fails)
 }
 
 func newEngine(run *report.Run) *engine {
@@ -230,6 +231,9 @@ func (e *engine) runJobs(t *target, jobs []job, jobIdx []int, nw int, skipJob, s
 			}
 			var lc, ln int64
 			for k := range ch {
+				if atomic.LoadInt32(&e.aborted) != 0 {
+					continue
+				}
 				if !e.deadline.IsZero() && time.Now().After(e.deadline) {
 					atomic.StoreInt32(&e.capped, 1)
 					continue
@@ -315,6 +319,9 @@ func (e *engine) runJobs(t *target, jobs []job, jobIdx []int, nw int, skipJob, s
 					buf = buf[:runtime.Stack(buf, true)]
 					e.record("hang", t, in, "hang in "+t.entry, fmt.Sprintf("call did not return within %v (twice)", hangCap), string(buf))
 					hungOnce.Do(func() { close(hung) })
+					// The stuck goroutines cannot be stopped and keep their cores busy: end the run here.
+					atomic.StoreInt32(&e.aborted, 1)
+					return atomic.LoadInt64(&calls), atomic.LoadInt64(&nontriv), true
 				}
 			}
 		}
@@ -347,6 +354,10 @@ func (e *engine) confirmHang(t *target, in []byte) bool {
 
 // runTarget executes every job of t (in-process or in child processes) and accounts for it.
 func (e *engine) runTarget(t *target) {
+	if atomic.LoadInt32(&e.aborted) != 0 {
+		e.run.AddPart(report.Part{Name: t.name, Engine: "D", Bound: boundText(t, e.thorough), Exhaustive: false, Note: "skipped: a hang was confirmed earlier in this run"})
+		return
+	}
 	jobs := buildJobs(t, e.thorough)
 	t0 := time.Now()
 	var calls, nt int64
